@@ -336,7 +336,7 @@ def step (st : St) (line : String) : St × String :=
     | some top => (st, specNA st fun _ =>
         let t := (grid st.maturity top).all fun (m, sy) =>
           balance st.s st.now st.maturity m sy == .ok (storeTruth st.s st.now st.maturity m sy)
-        s!"ok inv={b01 (invB st.s)} truth={b01 t}")
+        s!"ok inv={b01 (invB st.s && wfB st.s && debitsB st.s && spentHaveDebitsB st.s && unminedB st.s)} truth={b01 t}")
     | none => (st, "bad-op")
   | ["spec", "facts"] => (st, specNA st fun _ => "ok " ++ showFacts st.L)
   | _ => (st, "bad-op")
